@@ -133,33 +133,44 @@ def install(metrics=False):
 _REAL_TYPES = (type(_thread.allocate_lock()), type(_rt.RLock()), _rt.Event, _rt.Condition,
                _rt.Semaphore, _rt.Thread)
 
+EXTRA = []  # (holder, attribute, path): real primitives found beyond the ones reset_world knows by name
+
+
 def _scan_unknown_real_primitives():
-    """Refuse to run partly un-simulated: every real lock reachable from module globals of the
-    library (three levels deep) must be one that reset_world replaces."""
+    """Never run partly un-simulated: every real primitive reachable from module globals of the
+    library (three levels deep) is either one that reset_world replaces by name or is recorded
+    in EXTRA and replaced generically for the duration of each run.  A module-level real
+    Thread cannot be simulated after the fact and is refused."""
     from more_executors._impl import event as E
     from more_executors._impl.futures import base as FB, timeout as FT
-    known = {id(E.GLOBAL_HANDLER.lock), id(FT.LOCK), id(FB.EXECUTOR._shutdown._lock)}
-    unknown = []
+    known = set()
+    for getter in (lambda: E.GLOBAL_HANDLER.lock, lambda: FT.LOCK, lambda: FB.EXECUTOR._shutdown._lock):
+        try:
+            known.add(id(getter()))
+        except AttributeError:
+            pass
+    refused = []
+    del EXTRA[:]
 
-    def visit(path, obj, depth):
+    def visit(path, holder, key, obj, depth):
         if isinstance(obj, _REAL_TYPES):
-            if id(obj) not in known:
-                unknown.append(path)
+            if isinstance(obj, _rt.Thread):
+                refused.append(path)
+            elif id(obj) not in known:
+                EXTRA.append((holder, key, path))
             return
         if depth == 0 or isinstance(obj, type):
             return
         d = getattr(obj, "__dict__", None)
         if isinstance(d, dict) and type(obj).__module__.startswith("more_executors"):
-            for k, v in list(d.items()):
-                visit(path + "." + k, v, depth - 1)
+            for k, v in sorted(d.items(), key=lambda kv: str(kv[0])):
+                visit(path + "." + str(k), obj, k, v, depth - 1)
 
-    for name, mod in list(sys.modules.items()):
-        if mod is None or not name.startswith("more_executors"):
-            continue
-        for k, v in list(vars(mod).items()):
-            visit(name + "." + k, v, 3)
-    if unknown:
-        raise core.HarnessError("unsimulated real primitives reachable: %s" % sorted(set(unknown)))
+    for name, mod in sorted((n, m) for (n, m) in sys.modules.items() if m is not None and n.startswith("more_executors")):
+        for k, v in sorted(vars(mod).items()):
+            visit(name + "." + k, mod, k, v, 3)
+    if refused:
+        raise core.HarnessError("unsimulated real threads reachable from module globals: %s" % sorted(set(refused)))
 
 
 _saved = {}
@@ -167,8 +178,16 @@ _RLOCK_TYPE = type(_rt.RLock())
 
 
 def _sim_like(real):
-    """Simulated counterpart of a module-level real lock (same re-entrancy)."""
-    return core.SimRLock() if isinstance(real, _RLOCK_TYPE) else core.SimLock()
+    """Simulated counterpart of a module-level real primitive (same kind, same re-entrancy)."""
+    if isinstance(real, _RLOCK_TYPE):
+        return core.SimRLock()
+    if isinstance(real, _rt.Event):
+        return core.SimEvent()
+    if isinstance(real, _rt.Condition):
+        return core.SimCondition()
+    if isinstance(real, _rt.Semaphore):
+        return core.SimSemaphore(real._value)
+    return core.SimLock()
 
 
 def reset_world():
@@ -195,6 +214,17 @@ def reset_world():
     _saved["fb"] = (FB.EXECUTOR._shutdown._lock, FB.EXECUTOR._shutdown.is_shutdown)
     FB.EXECUTOR._shutdown._lock = _sim_like(FB.EXECUTOR._shutdown._lock)
     FB.EXECUTOR._shutdown.is_shutdown = False
+    if EXTRA:
+        twins = {}
+        ex = _saved["extra"] = []
+        for (holder, key, _path) in EXTRA:
+            real = getattr(holder, key, None)
+            if not isinstance(real, _REAL_TYPES):
+                continue
+            if id(real) not in twins:
+                twins[id(real)] = _sim_like(real)
+            ex.append((holder, key, real))
+            setattr(holder, key, twins[id(real)])
     m = sys.modules.get("prometheus_client")
     if m is not None and hasattr(m, "_reset"):
         m._reset()
@@ -214,6 +244,8 @@ def restore_world():
     (h.lock, h.events, h.shutdown, h.atexit_registered) = _saved["h"]
     (FT.LOCK, FT.EXECUTOR_REF) = _saved["ft"]
     (FB.EXECUTOR._shutdown._lock, FB.EXECUTOR._shutdown.is_shutdown) = _saved["fb"]
+    for (holder, key, real) in _saved.get("extra", ()):
+        setattr(holder, key, real)
     _saved.clear()
 
 
